@@ -280,6 +280,8 @@ class Check:
     def violation(self, signature, what, replay):
         for k in known_findings():
             if k['property'] == self.prop and k['signature'] == signature:
+                if signature not in self.known_hits and os.environ.get('VERIF_DUMP_KNOWN'):   # for studying a finding: keep its replay
+                    json.dump({'what': what, 'replay': replay}, open(os.path.join(os.environ['VERIF_DUMP_KNOWN'], '%s-%s.json' % (self.prop, re.sub(r'[^A-Za-z0-9]+', '_', signature))), 'w'), indent=1, default=str)
                 self.known_hits.setdefault(signature, (k, what))
                 return
         self.violations.append((signature, what, replay))
